@@ -707,6 +707,35 @@ def from_u8_table(F):
                 if tbl.k == "text" and tbl.x.get("bytes") is not None and tbl.x.get("elem_ty") == A("compression_enum") and ix.k == "arg" and enum.get("size") == 1:
                     by = tbl.x["bytes"]
                     return {x: (discr.get(by[x], f"?tag-{by[x]}") if x < len(by) else None) for x in range(256)}
+        # third form: TABLE.iter().copied().find(|t| *t as u8 == value) over a constant array of the enum:
+        # the first (hence, discriminants being distinct, the only) element whose discriminant is the byte
+        if e.k == "call" and e.x["path"].endswith("Iterator::find") and len(e.a) == 2:
+            it, clo = e.a[0].strip(), e.a[1].strip()
+            tbl = None
+            chain = []
+            x = it
+            while x.k == "call" and x.a and x.x["path"].rsplit("::", 1)[-1] in ("copied", "cloned", "iter", "into_iter"):
+                chain.append(x.x["path"].rsplit("::", 1)[-1])
+                x = x.a[0].strip()
+            while x.k in ("ref", "deref", "cast"):
+                x = x.a[0]
+            enum = F.adts[A("compression_enum")]
+            discr = {int(v["discr"]): v["name"] for v in enum["variants"]}
+            cb = F.by_path.get(clo.x.get("closure"), []) if clo.k == "agg" and clo.x.get("ak") == "closure" else []
+            if x.k == "text" and x.x.get("bytes") is not None and x.x.get("elem_ty") == A("compression_enum") and enum.get("size") == 1 and len(cb) == 1 and len(clo.a) == 1 and clo.a[0].strip().k == "arg":
+                p = cb[0].expr_at_return().strip()
+                okp = False
+                if p.k == "bin" and p.x["op"] == "Eq":
+                    l, r = p.a
+                    if not (strip_casts(l).strip().k == "discr"):
+                        l, r = r, l
+                    d = strip_casts(l).strip()
+                    # (discr(*item) as u8) == captured value; the item is the closure's own parameter
+                    okp = d.k == "discr" and d.a[0].strip().k == "arg" and d.a[0].strip().x["i"] == 2 and r.strip().k == "field" and r.strip().a[0].strip().k == "arg" and r.strip().a[0].strip().x["i"] == 1 \
+                        and l.strip().k == "cast" and l.strip().x.get("to") == "u8"
+                by = x.x["bytes"]
+                if okp and len(set(by)) == len(by):
+                    return {v: (discr.get(v, f"?tag-{v}") if v in by else None) for v in range(256)}
     return {x: "?shape" for x in range(256)}
 
 
